@@ -29,7 +29,12 @@ META = {
                   "those of the current degree); (6) 'latest result' attributes follow every call, hit or miss "
                   "(orbit.trajectory after propagate, the manifold's result after compute), apply_correction drops trajectory / "
                   "stability data even when the period does not change, and center_manifold(d) never hands out an object whose "
-                  "degree is not d (closed operation histories of length 3-5 on the real service objects).",
+                  "degree is not d (closed operation histories of length 3-5 on the real service objects); (7) closed histories, "
+                  "bounded-exhaustive, on real service instances whose engines are replaced by recording stubs: correct() "
+                  "installs the corrected state on every call (hit or miss); compute_stability over all histories of length "
+                  "<= 4 of (compute A | B | default, set options, set config) returns what a fresh service computes; the "
+                  "centre-manifold map follows every degree history of the shared manifold; correct() / generate() never "
+                  "return a result computed under a replaced correction / continuation configuration.",
     "level_note": "NOT decided: the universally quantified statement over all finite operation histories and over objects "
                   "sharing services, and save/load fidelity of compiled objects - those need a different technique (stateful "
                   "exploration). (1) is exhaustive over a bounded grammar, (2)-(4) are syntactic effect analyses; the mutable "
